@@ -147,10 +147,10 @@ PRELUDE = r"""
   (ite ((_ is a.int) x) (a.int.t x) (ite ((_ is a.bool) x) (a.bool.t x) (ite ((_ is a.f32) x) (a.f32.t x)
   (ite ((_ is a.f64) x) (a.f64.t x) (ite ((_ is a.str) x) (a.str.t x) (ite ((_ is a.slice) x) (a.slice.t x)
   (ite ((_ is a.time) x) (a.time.t x) 0))))))))
-(declare-fun str.rlen (Str) Int)
-(declare-fun str.runes (Str) (Array Int Int))
-(define-fun str.at ((s Str) (i Int)) Int (select (str.runes s) i))
-(declare-fun str.blen (Str) Int)
+(declare-fun gs.rlen (Str) Int)
+(declare-fun gs.runes (Str) (Array Int Int))
+(define-fun gs.at ((s Str) (i Int)) Int (select (gs.runes s) i))
+(declare-fun gs.blen (Str) Int)
 (define-fun wrap64 ((x Int)) Int
   (ite (and (<= (- 9223372036854775808) x) (<= x 9223372036854775807)) x
        (- (mod (+ x 9223372036854775808) 18446744073709551616) 9223372036854775808)))
